@@ -78,6 +78,15 @@ func note(id string, extra M) M {
 func cloneScenario(sc *sim.Scenario) *sim.Scenario {
 	var c sim.Scenario
 	mustRoundTrip(sc, &c)
+	if c.Store == nil {
+		c.Store = map[string]interface{}{}
+	}
+	if c.Remote == nil {
+		c.Remote = map[string]sim.RemoteSpec{}
+	}
+	if c.StoredInbox == nil {
+		c.StoredInbox = map[string]string{}
+	}
 	return &c
 }
 
